@@ -112,6 +112,15 @@ def replay_any(v, run_scenario):
                     bad.append('pools changed without slashing')
             if b1 + s1 > T:
                 bad.append('the booked stake was raised')
+            # what the handler itself stored: after a pending slash the books equal the delegation (plus / minus what this
+            # very operation delegates / undelegates); a handler that skipped the check keeps the old books
+            post = out.get('storage', {}).get('state')
+            if post and D < T:
+                e = real_effects(out)
+                D2 = D + e['delegated'] - e['undelegated']
+                pb, ps = int(post['total_bond_bsei_amount']), int(post['total_bond_stsei_amount'])
+                if pb + ps != D2:
+                    bad.append('after the operation the hub books %d but %d is delegated: the pending slash was not recognised' % (pb + ps, D2))
     return {'status': 'reproduced' if bad else 'mismatch', 'scenario': scn, 'output': out, 'oracle': bad}
 
 
